@@ -122,6 +122,14 @@ def wfModelW (m : ModelP) : Bool := wfModel (foldModel m)
 
 def normModelW (m : ModelP) : ModelP := normModel (foldModel m)
 
+/-- E8 (IR < 10, a value of the main graph named like an experimental entry; `wfModel9` / `normModel9` in
+`Model/Serde.lean`) in front of the fold (E2 E5 E6 E7): the fold drops `value_info` entries naming graph inputs,
+which the experimental decoding would read when such a name has the experimental form (`inputsPlain`) -/
+def wfModel9W (m : ModelP) : Bool :=
+  wfModel9 (foldModel m) && (decide (m.irVersion ≥ 10) || inputsPlain m.graph)
+
+def normModel9W (m : ModelP) : ModelP := normModel9 (foldModel m)
+
 /-! ## merge (E3): a `value_info` entry that names a graph output produced in the graph
 
 `_deserialize_graph` creates the value of an initializer / node output from its `value_info` entry
@@ -287,6 +295,21 @@ def wfModelD (m : ModelP) : Bool := wfModel (canonDModel m)
 def normModelD (m : ModelP) : ModelP := normModel (canonDModel m)
 def wfNodeAloneD (n : NodeP) : Bool := wfNodeAlone (canonDNode n)
 def wfAttrD (scopes : Scopes) (a : AttrP) : Bool := wfAttr scopes (canonDAttr a)
+
+/-- E8 in front of `canonD` (E8 together with E2-E7): below IR version 10 the `value_info` entries that `fold`
+and `merge` drop name graph inputs / declared graph outputs; the experimental decoding must not read them, so
+no graph input and no graph output that the graph declares (initializer, node output) has a name of the
+experimental form (the values INSIDE the graph may) -/
+def outputsPlain (g : GraphP) : Bool :=
+  g.outputs.all fun vo =>
+    !(g.initializers.map (·.name) ++ nodeOutNames g.nodes).contains vo.name
+      || (parseExperimentalName vo.name).isNone
+
+def wfModel9D (m : ModelP) : Bool :=
+  wfModel9 (canonDModel m) &&
+    (decide (m.irVersion ≥ 10) || (inputsPlain m.graph && outputsPlain m.graph))
+
+def normModel9D (m : ModelP) : ModelP := normModel9 (canonDModel m)
 
 /-! ## `serialize_tensor_into`, field by field (serde.py:2164-2205) -/
 
